@@ -177,4 +177,15 @@ TEXTS = {
         'note': ('Runtime assumption: encoded length independent of non-default offset/size values; checked per case. '
                  'Axioms: none.'),
     },
+    'C18': {
+        'level': ('Theorems (any value type, any name lists): the pop-based filing returns four groups that are a PERMUTATION '
+                  'of the compared-name dict - every name exactly once, under exactly one group, with its own value - whose '
+                  'first three groups list exactly the input / output / constant names; it succeeds whenever the role names '
+                  'are distinct and present and raises KeyError when one is missing; MSE >= 0, = 0 on equal arguments, '
+                  'symmetric; the ratio term >= 0, = 0 on equal arguments and provably NOT symmetric (Reals). Tie: '
+                  'correspondence V runs add_new_signature_results against the model on real and adversarial dicts; the '
+                  'oracle recomputes every value validate()/compare_model() report from its own interpreter runs.'),
+        'note': ('Interpreter tensor contents are runtime; float32 reductions compared within rtol 1e-4, not bit-exactly. '
+                 'Axioms: Reals axioms for the metric laws only.'),
+    },
 }
